@@ -403,3 +403,23 @@ package kafka
 //@   guards counter, ChunkSize
 //@ lock (*LeastBytes).mutex as lb
 //@   guards counters
+
+//@ property C10 C02
+
+//@ func (*messageSetReader).discard
+//@   trusted drains the rest of the fetch response from the connection; touches only the reader and the stream
+//@   modifies *r, region($rpos)
+//@ func releaseBuffer
+//@   trusted resets the buffer and puts it into bufferPool
+//@   modifies *b
+//@ func (*Conn).Close
+//@   trusted closes the network connection
+//@   modifies region($cclosed)
+
+// Pool typestate: after close() a batch references no decompression buffer any more, so the buffer it released
+// to bufferPool cannot be released a second time (which would hand one buffer to two later owners).
+//@ func (*Batch).close
+//@   option noframe
+//@   modifies heap
+//@   ensures batch.conn == nil && batch.lock == nil
+//@   ensures batch.msgs != nil ==> batch.msgs.decompressed == nil
